@@ -6,6 +6,7 @@ PingReceived / PingAckReceived events must mirror the delivered frames, a PING
 ACK is never answered, and ping() emits exactly one PING or raises ValueError
 emitting nothing.
 """
+import copy
 import struct
 
 import h2.exceptions
@@ -15,10 +16,11 @@ from .. import core, gen, wire
 LEVEL = 'exploration'
 RULE = ('each case = one endpoint fed 1..200 PING / PING-ACK frames (unique counter payloads plus all-zero / all-0xff) '
         'interleaved with valid peer traffic and local ping() calls, delivered in random chunkings (many frames per '
-        'call, frames split across calls); non-trivial = at least one PING answered and compared; distinct = hash of '
+        'call, frames split across calls), some bursts ending in a frame that is a connection error (PINGs in front of it in the same '
+        'call must still be answered: compared with a copy of the endpoint fed frame by frame); non-trivial = at least one PING answered and compared; distinct = hash of '
         'delivered bytes')
-MINIMA = {'pings_matched': 2000, 'ping_acks_delivered': 300, 'local_ping_ok': 200, 'local_ping_refused': 200,
-          'multi_ping_calls': 200, 'pure_ping_cases': 500, 'pure_ping_cases_idle_connection': 100}
+MINIMA = {'pings_matched': 2000, 'ping_acks_delivered': 300, 'local_ping_ok': 200, 'local_ping_refused': 200, 'local_ping_non_bytes_refused': 100,
+          'multi_ping_calls': 200, 'raising_calls_with_pings_compared': 1000, 'pure_ping_cases': 500, 'pure_ping_cases_idle_connection': 100}
 
 
 def n_cases(tier):
@@ -84,7 +86,15 @@ def run_case(idx, rng, tier, rep):
                 if any(f.type == wire.GOAWAY for f in fr):
                     continue
                 stream += m
-        keep = rng.randrange(0, 9) if rnd != rounds - 1 and rng.random() < 0.5 else 0
+        fatal = not pure and rng.random() < 0.12
+        if fatal:
+            # a frame that is a connection error, right behind the PINGs of this burst and often followed by more PINGs
+            stream += rng.choice([wire.build_data(0, b'x'), wire.build_window_update(0, 0), wire.build_settings([(wire.S_ENABLE_PUSH, 2)]),
+                                  wire.build_settings([(wire.S_MAX_FRAME_SIZE, 1)]), wire.build_ping(b'12345678', sid=1),
+                                  wire.raw_frame(wire.PING, 0, 0, b'1234567'), wire.build_rst(0, 0)])
+            for _ in range(rng.choice([0, 1, 3])):
+                stream += wire.build_ping(payload())
+        keep = rng.randrange(0, 9) if rnd != rounds - 1 and rng.random() < 0.5 and not fatal else 0
         data = bytes(stream[:max(0, len(stream) - keep)])
         del stream[:len(data)]
         for ch in gen.chunkings(rng, data, k=rng.choice([1, 1, 2, 4, 16])):
@@ -102,11 +112,17 @@ def run_case(idx, rng, tier, rep):
                     goaway_seen = True
             if npings_in_call > 1:
                 rep.count('multi_ping_calls')
+            twin = None
+            if not pure and npings_in_call and len(new) > npings_in_call:
+                twin = copy.deepcopy(t.c)          # to find out, if the call raises, at which frame it does
+            call_start = inp.consumed + len(inp.buf) - len(ch)
+            acks_in_call = []
             res = t.call('receive_data', ch)
             for f in res.frames:
                 if f.type == wire.PING:
                     if f.ack:
                         seen_ack_frames.append(f.opaque)
+                        acks_in_call.append(f.opaque)
                         if f.stream_id != 0 or f.defects:
                             rep.violation('C26:ack-frame-malformed', 'PING ACK malformed: %r' % f.brief(), wit(t, e_client))
                     else:
@@ -119,10 +135,26 @@ def run_case(idx, rng, tier, rep):
                                   wit(t, e_client, delivered_pings, seen_ack_frames))
                 if not isinstance(res.exc, h2.exceptions.ProtocolError):
                     rep.violation('C26:' + core.exc_key(res.exc), 'receive_data raised %r' % res.exc, wit(t, e_client))
-                # prefix property only
+                # prefix property ...
                 if seen_ack_frames != delivered_pings[:len(seen_ack_frames)]:
                     rep.violation('C26:ack-sequence-not-prefix', 'PING ACKs emitted are not a prefix of PINGs delivered',
                                   wit(t, e_client, delivered_pings, seen_ack_frames))
+                # ... and every PING in front of the frame at which the call fails is answered all the same: the frame is
+                # located by handing the same bytes to a copy of the endpoint one frame at a time
+                if twin is not None:
+                    want = acks_frame_by_frame(twin, ch, [f.end - call_start for f in new])
+                    rep.count('raising_calls_with_pings_compared')
+                    if want != acks_in_call:
+                        rep.violation('C26:pings-before-the-failing-frame-unanswered' if len(want) > len(acks_in_call)
+                                      else 'C26:acks-differ-when-call-raises',
+                                      'a receive_data call that raised emitted %d PING ACKs; the same bytes delivered frame by frame '
+                                      'emit %d before the failing frame' % (len(acks_in_call), len(want)),
+                                      wit(t, e_client, delivered_pings, seen_ack_frames))
+                # nothing delivered, nothing to answer
+                late = t.call('receive_data', b'')
+                if any(f.type == wire.PING for f in late.frames):
+                    rep.violation('C26:ack-emitted-without-ping', 'receive_data(b\'\') after the failed call emitted %s' %
+                                  [f.brief() for f in late.frames], wit(t, e_client, delivered_pings, seen_ack_frames))
                 break
             for e in res.events:
                 n = type(e).__name__
@@ -171,6 +203,27 @@ def run_case(idx, rng, tier, rep):
                     'first_payloads': [p.hex() for p in delivered_pings[:4]], 'calls': len(all_in)})
 
 
+def acks_frame_by_frame(conn, chunk, ends):
+    """PING ACK payloads `conn` emits when `chunk` is delivered cut at the given frame ends, up to the first raise."""
+    acks = []
+    pos = 0
+    cuts = [e for e in ends if 0 < e <= len(chunk)]
+    if not cuts or cuts[-1] != len(chunk):
+        cuts.append(len(chunk))
+    for e in cuts:
+        piece, pos = chunk[pos:e], e
+        failed = False
+        try:
+            conn.receive_data(piece)
+        except Exception:
+            failed = True
+        frames, _ = wire.parse_frames(conn.data_to_send())
+        acks += [f.opaque for f in frames if f.type == wire.PING and f.ack]
+        if failed:
+            break
+    return acks
+
+
 def h_has_streams(t):
     return bool(getattr(t.c, 'streams', None)) or bool(getattr(t.c, 'highest_outbound_stream_id', 0))
 
@@ -193,7 +246,7 @@ def local_ping(t, rng, rep, own):
         else:
             rep.count('local_ping_ok')
             own.append(p)
-    else:
+    elif r < 0.8:
         n = rng.choice([0, 1, 7, 9, 16, 4, 12])
         p = bytes(rng.randrange(256) for _ in range(n))
         res = t.call('ping', p)
@@ -206,6 +259,23 @@ def local_ping(t, rng, rep, own):
             rep.violation('C26:refused-ping-emitted', 'refused ping() emitted %s' % [f.brief() for f in res.frames], wit(t, None))
         else:
             rep.count('local_ping_refused')
+    else:
+        # things that are not a byte string of eight octets, although some of them have length 8 or convert to one
+        kind, p = rng.choice([('int', 8), ('int', 0), ('str', 'abcdefgh'), ('str', ''), ('none', None), ('list', [1, 2, 3, 4, 5, 6, 7, 8]),
+                              ('tuple', (1, 2, 3, 4, 5, 6, 7, 8)), ('tuple', ()), ('tuple', (b'12345678',)), ('range', range(8)),
+                              ('bool', True), ('list', [b'12345678'])])
+        res = t.call('ping', p)
+        if res.exc is None:
+            rep.violation('C26:ping-accepts-%s' % kind, 'ping(%r) was accepted and emitted %s' % (p, [f.brief() for f in res.frames]),
+                          wit(t, None))
+        elif not isinstance(res.exc, (ValueError, TypeError, h2.exceptions.ProtocolError)):
+            # (the property only asks that such a payload is not accepted; the unchanged library answers a tuple with the
+            # TypeError of its own message formatting, which is a refusal all the same)
+            rep.violation('C26:ping-non-bytes-raises-' + type(res.exc).__name__, 'ping(%r) raised %r' % (p, res.exc), wit(t, None))
+        elif res.frames:
+            rep.violation('C26:refused-ping-emitted', 'refused ping() emitted %s' % [f.brief() for f in res.frames], wit(t, None))
+        else:
+            rep.count('local_ping_non_bytes_refused')
 
 
 def first_diff(a, b):
